@@ -1,6 +1,6 @@
 """C19 - regeneration never loses user-written resolver code.
 
-extract (Gen/RewriteOffsets) -> prove (Props/C19) -> harness (real api.Generate on scratch projects: random
+extract (Gen/RewriteOffsets, Gen/PruneFacts) -> prove (Props/C19, Props/C19Prune) -> harness (real api.Generate on scratch projects: random
 resolver files x schema evolutions x both layouts x repeated regeneration) -> Lean driver (model prediction
 `regen`, Spec verdict `chk` on the implementation's own output) -> diff -> decide.
 """
@@ -54,6 +54,16 @@ def emitAccessor : NameHelper := .ucFirst
 def emitAccessorRet : NameHelper := .lcFirst
 def emitStruct : NameHelper := .lcFirst
 end GqlgenVerif.Gen.RewriteOffsets
+"""
+
+
+FALLBACK_PRUNE = """/- FALLBACK written by checks/c19.py because the extractor did not recognise internal/imports/prune.go. Spec evaluation only. -/
+namespace GqlgenVerif.Gen.PruneFacts
+def parseFlags : List String := ["ParseComments", "AllErrors"]
+def skipResolvedBase : Bool := true
+def dropsUsed : Bool := true
+def neverUnused : List String := ["_", "."]
+end GqlgenVerif.Gen.PruneFacts
 """
 
 
@@ -224,6 +234,27 @@ def classify(o, v, pred):
             cause = "other"
         shape["cause"] = cause
         inp = {"file": v["file"], "import": ("%s %s" % (imp["alias"], json.dumps(imp["path"]))).strip()}
+    elif kind == "unused-import":
+        af = [f for f in o["after"] if f["name"] == v["file"]][0]
+        imp = [i for i in af["imports"] if i["path"] == v["path"] and i["alias"] == v["alias"]][0]
+        n = local(imp)
+        bases = [x for x in af.get("sels", []) if x["name"] == n]
+        if bases and all(x["resolved"] for x in bases):
+            cause = "name-only-used-as-a-local-or-parameter"   # `time.Zone` with `time` a parameter / local of the body
+        elif not bases:
+            cause = "name-not-mentioned"
+        else:
+            cause = "other"
+        shape["cause"] = cause
+        shape["reserved_by_template"] = imp["path"] in AMBIENT
+        users = []
+        for d in af["decls"]:
+            if d["kind"] == "func" and d["hasBody"] and re.search(r"(?<![\w.])%s\.\w" % re.escape(n), d["inner"]):
+                users.append({"method": "%s.%s" % (d["recv"], d["name"]), "signature": d["hdr"].strip(), "body": d["inner"][:1500]})
+        inp = {"file": v["file"], "import": ("%s %s" % (imp["alias"], json.dumps(imp["path"]))).strip(),
+               "go_says": "%s imported and not used" % json.dumps(imp["path"]),
+               "selectors_on_that_name": users[:4], "generator_error": o["genErr"][:600],
+               "schema": [{"type": x["name"], "file": x["file"], "resolver_fields": [y["name"] for y in x["fields"] if y["isResolver"]]} for x in o["schema"]]}
     elif kind == "decl-lost":
         d = find_decl(o["before"], v["file"], v["idx"])
         objs = [x["name"] for x in o["schema"] if any(f["isResolver"] for f in x["fields"])]
@@ -251,8 +282,10 @@ def run(ctx):
         "templates.ToGo / ToGoPrivate / cases.Title are not modelled: their values for every type name are inputs of the model (Cfg.names, computed by the harness with the real functions); WHICH helper is applied where is regenerated from resolver.go / resolver.gotpl; LcFirst / UcFirst are computed by the model (ASCII) and tied by the declaration-sequence comparison",
         "type names with a leading underscore are not generated (gqlgen's own generated.go does not compile for them: ResolverRoot declares ucFirst(name)(), the executor calls cases.Title(name)()); input-object resolvers, custom resolver templates, preserve_resolver and ResolverImplementer plugins are outside the model",
     ]
-    ok_extract = ctx.extract("RewriteOffsets")
-    proved = ok_extract and ctx.prove(props=["GqlgenVerif.Props.C19"])
+    ok_offsets = ctx.extract("RewriteOffsets")
+    ok_prune = ctx.extract("PruneFacts")
+    ok_extract = ok_offsets and ok_prune
+    proved = ok_extract and ctx.prove(props=["GqlgenVerif.Props.C19", "GqlgenVerif.Props.C19Prune"])
     if ok_extract and not proved:
         ctx.cov["proof_failure"] = ctx.proof_failure
     spec_only = False
@@ -262,8 +295,12 @@ def run(ctx):
         # constants and judge the implementation's output by the Spec alone (no model prediction).
         import os
         from lib import vf
-        with open(os.path.join(vf.LEAN, "GqlgenVerif", "Gen", "RewriteOffsets.lean"), "w") as f:
-            f.write(FALLBACK_GEN)
+        if not ok_offsets:
+            with open(os.path.join(vf.LEAN, "GqlgenVerif", "Gen", "RewriteOffsets.lean"), "w") as f:
+                f.write(FALLBACK_GEN)
+        if not ok_prune:
+            with open(os.path.join(vf.LEAN, "GqlgenVerif", "Gen", "PruneFacts.lean"), "w") as f:
+                f.write(FALLBACK_PRUNE)
         rc, so, se = vf.sh(["lake", "build", "driver_c19"], cwd=vf.LEAN, timeout=1800)
         ctx.driver_ok = rc == 0
         ctx.cov.setdefault("obligations", 0)
@@ -353,6 +390,20 @@ def run(ctx):
                     moved += 1
         if moved:
             branch["method-moved-between-files"] += 1
+        # identifiers that shadow a package the template reserves: per regenerated file, the reserved names that occur as
+        # the base of a selector bound inside the file (parameter / local / ...), alone or next to a genuine package use
+        for f in o["after"]:
+            res = {x["name"] for x in f.get("sels", []) if x["resolved"] and x["name"] in AMBIENT.values()}
+            gen = {x["name"] for x in f.get("sels", []) if not x["resolved"]}
+            for n in sorted(res):
+                branch["shadowed-reserved-name:" + n] += 1
+            if res - gen:
+                branch["file-with-shadowed-name-only"] += 1
+            if res & gen:
+                branch["file-with-shadowed-name-and-genuine-use"] += 1
+        if any(re.search(r"\b(%s) \*?ShadowIn\b" % "|".join(AMBIENT.values()), d["hdr"]) and "not implemented" not in d["inner"]
+               for f in o["before"] for d in f["decls"] if d["kind"] == "func" and d["hasBody"]):
+            branch["implemented-method-with-parameter-named-like-reserved-package"] += 1
         unform = sum(1 for f in o["before"] for d in f["decls"] if d["kind"] == "func" and d["hasBody"] and d["canon"] != d["inner"].strip())
         if unform:
             branch["before-not-gofmt-ed"] += 1
@@ -417,7 +468,7 @@ def run(ctx):
     ctx.cov.update({
         "evaluations": len(steps),
         "distinct_nontrivial": len(nontriv),
-        "rule": "one evaluation = one real api.Generate over a scratch project whose resolver files were edited by the harness (seeded random bodies with nested braces / strings / raw strings / comments / closures, doc comments, named results, helper declarations, aliased / dot / blank imports) after a seeded schema evolution (add / remove / rename fields and types, move fields and types between schema files, add / remove schema files, toggle resolver flags, or none), both layouts, 4-8 regenerations per case, plus directed adversarial cases. Non-trivial = the package held at least one user-written resolver body AND (leftover code was produced OR a method moved between files OR the schema changed); distinct by hash of (files before, schema)",
+        "rule": "one evaluation = one real api.Generate over a scratch project whose resolver files were edited by the harness (seeded random bodies with nested braces / strings / raw strings / comments / closures, doc comments, named results, helper declarations, aliased / dot / blank imports; in half of the random cases also schema arguments, parameters, named results, locals, range / closure / if variables and struct fields spelled like the packages the resolver template reserves) after a seeded schema evolution (add / remove / rename fields and types, move fields and types between schema files, add / remove schema files, toggle resolver flags, or none), both layouts, 4-8 regenerations per case, plus directed adversarial cases. Non-trivial = the package held at least one user-written resolver body AND (leftover code was produced OR a method moved between files OR the schema changed); distinct by hash of (files before, schema)",
         "input_distribution": dict(branch),
         "correspondence_divergences": ndiv,
         "spec_violations_on_impl_output": nviol,
